@@ -222,6 +222,10 @@ def build(desc, symbolic=True):
         return pg.Dict(d) if symbolic else d
     if k == 'tuple':
         return tuple(build(x, symbolic) for x in desc[1])
+    if k == 'ref':
+        # an explicit reference; its target (here a plain, non-symbolic container) is
+        # deliberately shared by copies
+        return pg.Ref(build(desc[1], symbolic=False))
     if k == 'oneof':
         return pg.oneof(list(desc[1]))
     if k == 'functor':
